@@ -117,6 +117,23 @@ def valid_hexfloats(n):
                         yield ("hexfloat.dot-frac[empty-int]", "0" + x + "." + b + ex + s)
 
 
+def valid_long():
+    """Long literals: lengths around powers of two and round numbers (a length must not matter)."""
+    for n in (31, 32, 33, 63, 64, 65, 66, 100, 127, 128, 129, 255, 256, 257, 1000):
+        yield (f"long.int.dec[{n}]", "1" + "0" * (n - 1))
+        yield (f"long.int.dec+suffix[{n}]", "9" * n + "ULL")
+        yield (f"long.int.oct[{n}]", "0" + "7" * (n - 1))
+        yield (f"long.int.hex[{n}]", "0x" + "aF09" * (n // 4) + "b" * (n % 4))
+        yield (f"long.int.bin[{n}]", "0b" + "10" * (n // 2) + "1" * (n % 2))
+        yield (f"long.int.bin+suffix[{n}]", "0b" + "1" * n + "ULL")
+        yield (f"long.float.frac[{n}]", "3." + "1415926535" * (n // 10) + "9" * (n % 10))
+        yield (f"long.float.int[{n}]", "1" * n + ".5f")
+        yield (f"long.float.exp[{n}]", "1.5e" + "1" * n)
+        yield (f"long.hexfloat[{n}]", "0x1." + "8a" * (n // 2) + "p3")
+        yield (f"long.string[{n}]", '"' + "ab c" * (n // 4) + '"')
+        yield (f"long.string.escapes[{n}]", '"' + "\\n\\t" * (n // 4) + '"')
+
+
 PREFIXES = ["", "L", "u", "U", "u8"]
 SIMPLE_ESC = ["\\'", '\\"', "\\?", "\\\\", "\\a", "\\b", "\\f", "\\n", "\\r", "\\t", "\\v"]
 
@@ -173,6 +190,13 @@ def malformed(n):
                       ("08_1", "INVALID_OCT_INT"), ("0b2q", "INVALID_BIN_INT")):
         yield ("M10.base-digit+suffix", diag, lit, "")
         yield ("M10.base-digit+suffix", "INVALID_SUFFIX", lit, "")
+    # long malformed constants: the defect sits far from the start
+    for n in (63, 64, 65, 70, 130):
+        yield ("M1.binary-digit.long", "INVALID_BIN_INT", "0b" + "1" * n + "2", "")
+        yield ("M1.octal-digit.long", "INVALID_OCT_INT", "0" + "7" * n + "8", "")
+        yield ("M2.int-suffix.long", "INVALID_SUFFIX", "1" * n + "uu", "")
+        yield ("M5.dots.long", "MULTIPLE_DOTS", "1." + "5" * n + ".5", "")
+        yield ("M3.float-suffix.long", "BAD_FLOAT_SUFFIX", "1." + "5" * n + "ff", "")
     # M2 unknown integer suffix
     ints = ["1", "10", "0", "07", "0x1", "0xF", "0b1", "9", "0x9a"]
     for i in ints:
